@@ -874,3 +874,30 @@ def tt_aa_keep(x):
     with warnings.catch_warnings():
         warnings.simplefilter("ignore")
         return _cellstr(tt.aa.standardize(seq=x, on_fail="keep", suppress_warnings=True))
+
+
+# ---- C15: clustering
+def first_two_columns(a):
+    import numpy as np
+    return np.asarray(a).reshape(-1, 3)[:, :2]
+
+
+def simplified(g):
+    g2 = g.copy()
+    g2.simplify()
+    return g2
+
+
+def joinable(dfs, on, suffixes):
+    import pandas as pd
+    if suffixes is not None:
+        return all(on == "index" or on in d.columns for d in dfs)
+    seen = set()
+    for d in dfs:
+        cols = [c for c in d.columns if c != on]
+        if on != "index" and on not in d.columns:
+            return False
+        if seen & set(cols):
+            return False
+        seen |= set(cols)
+    return True
